@@ -966,3 +966,26 @@ Example assignment_history_example :
   sl_import s = Some [3; 2] /\ sl_peer s = Some [3] /\ sl_export s = Some [0]
   /\ needs_rpki [3; 2] = true /\ needs_rpki [3] = false.
 Proof. repeat split; reflexivity. Qed.
+
+(* ======================================================================= *)
+(* The API annotation is per path                                           *)
+
+(* "the validation state shown by the API": whatever other paths the destination holds and in
+   whatever order, the state shown for a path is - outside C12-3 - the RFC 6811 state of the
+   prefix with THAT path's origin (its own AS_PATH, its own source's local AS) *)
+Theorem C12_api_annotation_per_path_outside_known :
+  forall (ops : list op) (n : net) (paths : list (N * list (N * list N)))
+         (i : nat) (local : N) (attrs : list (N * list N)) (segs : option (list (N * list N))),
+    Forall op_ok ops -> net_ok n ->
+    let t := run_ops ops rtab_new in
+    ~ Known_C12_3 t n ->
+    nth_error paths i = Some (local, attrs) -> attrs_decode attrs segs ->
+    exists res, nth_error (annotate t n paths) i = Some (POk (Some res))
+      /\ state_of (v_state res)
+         = rfc6811 (vrps_of (sel (n_fam n) t)) (route_of n (origin_spec local segs)).
+Proof.
+  intros ops n paths i local attrs segs F Hn t NK Hi D.
+  destruct (C12_validate_code_eq_rfc6811_outside_known ops local n attrs segs F Hn D NK) as [res [H1 H2]].
+  exists res. split; [|exact H2].
+  unfold annotate. rewrite nth_error_map, Hi. cbn [option_map fst snd]. fold t in H1. rewrite H1. reflexivity.
+Qed.
